@@ -1443,6 +1443,14 @@ class FnLower:
         if r is None:
             raise Unsupported('construction of unknown type %s' % type_str(n['type']))
         self.ctx.need_rec(r)
+        if r.id in self.ctx.opaque:
+            # a record this unit treats as opaque (its functions are other units' business): a copy copies the blob, any other
+            # constructor leaves contents this unit knows nothing about (arbitrary)
+            if ctor is not None and self.ctx._is_copy_or_move(ctor, r) and args:
+                return ['%s = %s;' % (target, self.expr(args[0]))]
+            t = self.ctx.ctype(n['type'])[0]
+            nm = self.newtmp('__o')
+            return ['{ %s %s; %s = %s; }   /* opaque %s constructed: contents arbitrary */' % (t, nm, target, nm, self.ctx.rec_cname(r))]
         if ctor is None:
             if not args:
                 # trivial default construction: members stay indeterminate
